@@ -237,6 +237,123 @@ fn history_independence(ctx: &mut Ctx, alphabet: &[String]) {
     }
 }
 
+/// (g) static-memory write monitor: all interpreter state must live in the PushState value.
+/// The writable statics that belong to pushr (symbol table of this very binary, via `nm`) are
+/// snapshotted around instruction executions; any pushr static other than the documented
+/// node-id counter that changes is hidden process-global state.
+fn static_write_monitor(ctx: &mut Ctx, alphabet: &[String]) {
+    use crate::mon::step_named;
+    let exe = match std::fs::read_link("/proc/self/exe") {
+        Ok(p) => p,
+        Err(_) => return,
+    };
+    let out = match std::process::Command::new("nm").args(["-S", "-C", "--defined-only"]).arg(&exe).output() {
+        Ok(o) if o.status.success() => String::from_utf8_lossy(&o.stdout).to_string(),
+        _ => {
+            ctx.rec.inconclusive("C14", "static-write monitor: `nm` not available");
+            return;
+        }
+    };
+    // load base of the executable (PIE): first mapping of the exe
+    let maps = std::fs::read_to_string("/proc/self/maps").unwrap_or_default();
+    let exe_s = exe.to_string_lossy().to_string();
+    let mut base: Option<usize> = None;
+    let mut rw: Vec<(usize, usize)> = vec![];
+    for l in maps.lines() {
+        if !l.ends_with(&exe_s) {
+            continue;
+        }
+        let mut it = l.split_whitespace();
+        let range = it.next().unwrap_or("");
+        let perms = it.next().unwrap_or("");
+        let (a, b) = range.split_once('-').unwrap_or(("0", "0"));
+        let (a, b) = (usize::from_str_radix(a, 16).unwrap_or(0), usize::from_str_radix(b, 16).unwrap_or(0));
+        if base.is_none() {
+            base = Some(a);
+        }
+        if perms.starts_with("rw") {
+            rw.push((a, b));
+        }
+    }
+    let base = match base {
+        Some(b) => b,
+        None => return,
+    };
+    // pushr's writable statics
+    let mut syms: Vec<(usize, usize, String)> = vec![];
+    for l in out.lines() {
+        let parts: Vec<&str> = l.splitn(4, ' ').collect();
+        if parts.len() < 4 || !matches!(parts[2], "b" | "B" | "d" | "D") || !parts[3].contains("pushr::") {
+            continue;
+        }
+        let (addr, size) = (usize::from_str_radix(parts[0], 16).unwrap_or(0), usize::from_str_radix(parts[1], 16).unwrap_or(0));
+        let at = base + addr;
+        // only symbols that really lie in a writable mapping of the executable (excludes TLS templates)
+        if size == 0 || size > 1 << 20 || !rw.iter().any(|(a, b)| at >= *a && at + size <= *b) {
+            continue;
+        }
+        syms.push((at, size, parts[3].to_string()));
+    }
+    let read = |syms: &[(usize, usize, String)]| -> Vec<Vec<u8>> { syms.iter().map(|(a, n, _)| unsafe { std::slice::from_raw_parts(*a as *const u8, *n).to_vec() }).collect() };
+    // self-test of the monitor: creating a graph node must be seen as a write to NODE_COUNTER
+    let before = read(&syms);
+    let mut g = Graph::new();
+    g.add_node(1);
+    let after = read(&syms);
+    let seen_counter = syms.iter().enumerate().any(|(i, (_, _, n))| n.contains("NODE_COUNTER") && before[i] != after[i]);
+    if !seen_counter {
+        ctx.rec.inconclusive("C14", &format!("static-write monitor could not observe NODE_COUNTER change ({} pushr statics found): address computation not validated", syms.len()));
+        return;
+    }
+    ctx.rec.count("pushr_statics_watched", syms.len() as u64);
+    for (_, _, n) in syms.iter() {
+        ctx.rec.set_add("pushr_statics", n);
+    }
+    let (mut is, all_names) = new_iset();
+    let cache = sorted_cache(&is);
+    let per_name = ctx.n(12, 60);
+    let mut case = 0u64;
+    for name in all_names.iter() {
+        case += 1;
+        if !ctx.mine(case) {
+            continue;
+        }
+        ctx.rec.case_marker(8_500_000 + case, &format!("static-write monitor {}", name));
+        for k in 0..per_name as u64 {
+            let mut r = Rng::derive(ctx.seed, &[14, 7, case, k]);
+            let mut s = gen::snap(&mut r, &StateOpts { vals: Vals::Small, max_depth: 4, graphs: true, io: true, bindings: true, flags: false, random_cfg: false }, alphabet);
+            if name.starts_with("LIST.NEIGHBOR") {
+                let size = r.range(2, 40) as i32;
+                s.i.insert(0, r.range(1, 3) as i32);
+                s.i.insert(0, r.below(size as usize) as i32);
+                s.i.insert(0, size);
+                if name != "LIST.NEIGHBOR*IDS" {
+                    s.i.insert(0, 0);
+                }
+                s.f.insert(0, fb(1.0));
+            }
+            s.e.clear();
+            let mut st = build_state(&s);
+            let b0 = read(&syms);
+            let _ = step_named(&mut st, &mut is, &cache, name);
+            let b1 = read(&syms);
+            ctx.rec.count("static_write_checks", 1);
+            ctx.rec.count("runs", 1);
+            for (i, (_, _, sym)) in syms.iter().enumerate() {
+                if b0[i] != b1[i] && !sym.contains("NODE_COUNTER") {
+                    ctx.rec.violation(
+                        "C14",
+                        &format!("static-write|{}", sym.split("::").last().unwrap_or(sym)),
+                        &format!("executing {} wrote to the process-global static {} ({} bytes): interpreter state outside the PushState value ; state {}", name, sym, syms[i].1, s.summary()),
+                        "",
+                    );
+                }
+            }
+        }
+        ctx.rec.cover(&format!("static|{}", name));
+    }
+}
+
 pub fn run(ctx: &mut Ctx) {
     let (_is, names) = new_iset();
     let alphabet = deterministic_alphabet(&names);
@@ -359,9 +476,11 @@ pub fn run(ctx: &mut Ctx) {
             ctx.rec.sample("node-ids", &format!("{} threads x {} creations: first ids per thread {:?}", t, m, logs.iter().map(|l| l.first().copied().unwrap_or(0)).collect::<Vec<_>>()));
         }
     }
-    // (f) instruction-level history independence
+    // (f) instruction-level history independence, (g) static-memory write monitor
     if mode != "tsan" {
         history_independence(ctx, &alphabet);
+        ctx.rec.checkpoint();
+        static_write_monitor(ctx, &alphabet);
         ctx.rec.checkpoint();
     }
     // (e) CLI cases for the driver: terminating programs, the library's final CODE / INT text
